@@ -105,6 +105,7 @@ type Program struct {
 	Repo      string
 	Errors    []string
 	implContracts map[string]*Contract
+	ContractErrors []string
 }
 
 func pkgShort(path string) string {
@@ -208,7 +209,8 @@ func loadProgram(repo string) (*Program, error) {
 			sort.Strings(files)
 			for _, cf := range files {
 				if err := p.parseContractFile(cf, short); err != nil {
-					return nil, err
+					// a broken contract file must not take the other files down with it
+					p.ContractErrors = append(p.ContractErrors, err.Error())
 				}
 			}
 		}
